@@ -855,9 +855,12 @@ MANIFEST = dict(
         "gradient blocking of the proposal in importance weights, no_grad regions of the Metropolis-Hastings chain; "
         "plus definite assignment in all constructors of the estimator/distribution modules. A dropped or misplaced "
         "detach changes the gradient's mean - exactly what the statistical tests cannot see - and is decided here "
-        "from the expression structure. Exact unbiasedness and the relaxed densities are numerical and not decided."),
+        "from the expression structure. The direct estimator's score-function term must weight log p(b) by the (corrected) integrand itself, detached - not by a "
+        "centred, scaled or clamped transformation of it - and GumbelOneHotCategorical.tlog_prob is interpreted over exact values for logits with a masked "
+        "(-inf) class, unbatched and batched, every one-hot sample: the logit of the selected class, finite unless that class is masked. "
+        "Exact unbiasedness and the relaxed densities are numerical and not decided."),
     level_note="Trusted: python ast; autograd semantics of detach/no_grad; the estimators' docstring formulas. F15 "
                "(MH constructor reads self.proposal before super().__init__) was found by G22 and repaired.",
-    technique="static analysis: additive-term/detach structure analysis on def-use chains, path-based definite assignment",
+    technique="static analysis: additive-term/detach structure analysis on def-use chains, path-based definite assignment; tlog_prob of the one-hot categorical by interpretation over exact values with a masked class",
     design_ref="DESIGN.md section 4 C19",
 )
